@@ -490,3 +490,69 @@ def uuid_appears(seed):
     r, o = rec.check(); d.append("check -> %s" % o["exit"])
     a.destroy()
     return rec, d
+
+
+def rehash_silent_sync(seed):
+    """C03 / C05 / C15: a hash migration is in progress (stripes still marked for the previous function); a synced block rots
+    silently and a file is added on another disk in the same stripes: the sync meets the silent error (it repairs the block in
+    memory to compute the parity), reports it and leaves the stripe as it was recorded - marks and hashes of the same function -
+    so that fix repairs the rotten block and every later loss within the parity count is still recovered"""
+    a = arr.Array(arr.Conf(nd=3, np=2, copies=2), seed=seed)
+    a.write_file(0, "A", [1, 2, 3, 4], mtime=11)
+    a.write_file(1, "B", [5], mtime=12)
+    a.write_file(2, "C", [6, 7, 8, 9], mtime=13)
+    rec = recorder.Recorder(a)
+    d = ["init A(4) / B(1) / C(4)"]
+    r, o = rec.sync(); d.append("sync -> %s" % o["exit"])
+    r, o = rec.rehash(); d.append("rehash -> %s" % o["exit"])
+    a.write_file(1, "N", [10, 11, 12], mtime=14); rec.env("write 1/N"); d.append("write 1/N (3 blocks)")
+    a.corrupt_block(0, "A", 3, "flip"); rec.env("corrupt 0/A[3]", damage=True); d.append("corrupt 0/A[3] silently")
+    a.clock += 10
+    r, o = rec.sync(); d.append("sync -> %s" % o["exit"])
+    a.clock += 10
+    r, o = rec.sync(); d.append("sync -> %s" % o["exit"])
+    r, o = rec.check(); d.append("check -> %s" % o["exit"])
+    r, o = rec.fix(); d.append("fix -> %s" % o["exit"])
+    r, o = rec.check(); d.append("check -> %s" % o["exit"])
+    for dd, n in ((1, "N"), (2, "C"), (0, "A")):
+        import os
+        if os.path.exists(a.path(dd, n)):
+            a.remove(dd, n)
+        rec.env("lose %d/%s" % (dd, n), damage=True); d.append("lose %d/%s" % (dd, n))
+        r, o = rec.fix(); d.append("fix -> %s" % o["exit"])
+    r, o = rec.check(); d.append("check -> %s" % o["exit"])
+    r, o = rec.scrub("full"); d.append("scrub full -> %s" % o["exit"])
+    a.destroy()
+    return rec, d
+
+
+def zero_chg_second_disk(seed):
+    """C03 / C05: a sync that was adding a file in positions its disk (not the first one) never used stops after its first stripe,
+    without its final save: the state holds the new blocks as changed blocks whose parity share is zero, the parity of their
+    stripes is the old one.  A synced file of another disk is then lost: fix must put exactly the new blocks back to zero to
+    decode (second strategy) and rebuild the lost file bit for bit"""
+    import os
+    a = arr.Array(arr.Conf(nd=3, np=2, copies=2), seed=seed)
+    a.write_file(0, "A", [1, 2, 3, 4, 5], mtime=11)
+    a.write_file(1, "B", [6], mtime=12)
+    a.write_file(2, "C", [7, 8, 9, 10, 11], mtime=13)
+    rec = recorder.Recorder(a)
+    d = ["init A(5) / B(1) / C(5)"]
+    r, o = rec.sync(); d.append("sync -> %s" % o["exit"])
+    a.write_file(1, "N", [12, 13, 14, 15], mtime=14); rec.env("write 1/N"); d.append("write 1/N (4 blocks)")
+    a.clock += 10
+    r, o = rec.sync("-B", "1", "--test-kill-after-sync"); d.append("sync -B 1, no final save -> %s" % o["exit"])
+    for lost in ((2, "C"), (0, "A")):
+        a.remove(*lost); rec.env("lose %d/%s" % lost, damage=True); d.append("lose %d/%s" % lost)
+        r, o = rec.check(); d.append("check -> %s" % o["exit"])
+        r, o = rec.fix(); d.append("fix -> %s" % o["exit"])
+    a.clock += 10
+    r, o = rec.sync(); d.append("sync -> %s" % o["exit"])
+    r, o = rec.check(); d.append("check -> %s" % o["exit"])
+    if os.path.exists(a.path(1, "N")):
+        a.remove(1, "N")
+    rec.env("lose 1/N", damage=True); d.append("lose 1/N")
+    r, o = rec.fix(); d.append("fix -> %s" % o["exit"])
+    r, o = rec.check(); d.append("check -> %s" % o["exit"])
+    a.destroy()
+    return rec, d
